@@ -182,7 +182,7 @@ class SuperNet(DNAS):
                 cost = cost + layer.get_cost(cost_spec, cost_fn_map)
             elif 'sn_branches' not in str(node.target) and self.full_cost:
                 # TODO: this is constant and can be pre-computed for efficiency
-                v = vars(layer)
+                v = dict(vars(layer))
                 v.update(shapes_dict(node))
                 cost = cost + cost_fn_map[lname](v)
         return cost
